@@ -470,6 +470,28 @@ func asMetricCall(v ssa.Value) (metricCall, bool) {
 	return metricCall{strings.TrimPrefix(n, collMeth), name, call}, true
 }
 
+// c18PhiName: v is collector.Counter(name, ...) whose name is a merge of
+// string constants; returns the constants in edge order and the phi.
+func c18PhiName(v ssa.Value) ([]string, *ssa.Phi, bool) {
+	call, ok := v.(*ssa.Call)
+	if !ok || !strings.HasPrefix(ssau.CallName(call), collMeth) {
+		return nil, nil, false
+	}
+	phi, ok := call.Common().Args[1].(*ssa.Phi)
+	if !ok {
+		return nil, nil, false
+	}
+	var names []string
+	for _, e := range phi.Edges {
+		s, ok := ssau.ConstString(e)
+		if !ok {
+			return nil, nil, false
+		}
+		names = append(names, s)
+	}
+	return names, phi, true
+}
+
 // tagExprs renders the tag-map literal passed to a metric call as sorted
 // "key=expr" strings.
 func tagExprs(f *symx.Fn, call *ssa.Call) []string {
@@ -542,6 +564,19 @@ func c18Monitor(c *Ctx, sx *symx.Ctx) {
 					}
 					return []string{"inc:" + mc.name}
 				}
+				// the counter's name chosen between the two outcome counters by a
+				// value merge (name := miss; if hit { name = hit })
+				if names, _, ok := c18PhiName(call.Common().Args[0]); ok && len(sp.xor) == 2 {
+					all := len(names) > 0
+					for _, n := range names {
+						if n != sp.xor[0] && n != sp.xor[1] {
+							all = false
+						}
+					}
+					if all {
+						return []string{"inc:hit-or-miss"}
+					}
+				}
 				return []string{"inc:?"}
 			}
 			return nil
@@ -592,7 +627,32 @@ func c18Monitor(c *Ctx, sx *symx.Ctx) {
 						return
 					}
 					mc, ok := asMetricCall(call.Common().Args[0])
-					if !ok || mc.name != name {
+					if !ok {
+						// merged name: this constant arrives exactly on the wanted side of the selector
+						if names, phi, okp := c18PhiName(call.Common().Args[0]); okp {
+							for i, nm := range names {
+								if nm != name {
+									continue
+								}
+								p := phi.Block().Preds[i]
+								// the arriving edge is the selector's own edge, or the predecessor runs only on that side
+								if iff, isIf := p.Instrs[len(p.Instrs)-1].(*ssa.If); isIf && iff.Cond == ssa.Value(sel) {
+									for k, sc := range p.Succs {
+										if sc == phi.Block() && (k == 0) == wantThen {
+											found = true
+										}
+									}
+								}
+								for _, d := range ssau.TransitiveControlDeps(cd, p) {
+									if d.If().Cond == ssa.Value(sel) && d.Then == wantThen {
+										found = true
+									}
+								}
+							}
+						}
+						return
+					}
+					if mc.name != name {
 						return
 					}
 					for _, d := range ssau.TransitiveControlDeps(cd, call.Block()) {
